@@ -45,7 +45,7 @@ def mini_crate(ctx, name, template, toml_feats, edit_feats, arg):
         '[package]\nname = "c18%s"\nversion = "0.0.0"\nedition = "2021"\n\n[workspace]\n\n[dependencies]\n'
         'toml = { path = "/repo/crates/toml", default-features = false, features = [%s] }\n'
         'toml_edit = { path = "/repo/crates/toml_edit", default-features = false, features = [%s] }\n'
-        'toml_datetime = { path = "/repo/crates/toml_datetime" }\nserde_json = "1.0"\n\n[profile.release]\ndebug-assertions = true\noverflow-checks = true\n'
+        'toml_datetime = { path = "/repo/crates/toml_datetime" }\nserde = "1.0"\nserde_json = "1.0"\n\n[profile.release]\ndebug-assertions = true\noverflow-checks = true\n'
         % (name.replace("-", ""), ft, fe))
     open(os.path.join(d, ".cargo", "config.toml"), "w").write('[net]\noffline = true\n[build]\ntarget-dir = "target"\n')
     _ct = os.path.join(d, "Cargo.toml")
@@ -100,6 +100,10 @@ def run(ctx):
             outp = ctx.path("digest-%s-%s.ndjson" % (cell, tag))
             ctx.harness(h, ["digest", "--in", path, "--out", outp])
             for rec in core.iter_ndjson(outp):
+                if rec["id"] == "probe":
+                    if tag == "battery":
+                        add("invariant", "probe/try_from", cell, rec["d_probe"])
+                    continue
                 k = "depth" if tag == "depth" else "invariant"
                 add(k, "%s/edit" % rec["id"], cell, rec["d_edit"])
                 add(k, "%s/parse" % rec["id"], cell, rec["d_parse"])
@@ -118,6 +122,9 @@ def run(ctx):
     po, err = mini_crate(ctx, "parse-only", "c18_parse_main.rs", ["parse"], ["parse"], bp)
     evs.append({"ev": "cfgbuild", "id": "generated parse-only crate", "cell": "parse-only program", "ok": po is not None, "log": err})
     for rec in po or []:
+        if rec["id"] == "probe":
+            add("invariant", "probe/try_from", "parse-only", rec["d_probe"])
+            continue
         add("invariant", "%s/parse" % rec["id"], "parse-only", rec["d_parse"])
     do, err = mini_crate(ctx, "display-only", "c18_display_main.rs", ["display"], ["display"], sp)
     evs.append({"ev": "cfgbuild", "id": "generated display-only crate", "cell": "display-only program", "ok": do is not None, "log": err})
